@@ -291,7 +291,8 @@ class Shape:
                       and f.attr in ('send_and_receive', 'send_and_receive_raw')):
                     self.emit('Xfer %s' % self.ctx(c))
                 elif self.passes_self(node):
-                    self.inline(node, c, bind if top else None, nxt if top else None)
+                    if not self.benign_builtin(node):
+                        self.inline(node, c, bind if top else None, nxt if top else None)
             elif self.is_self_attr(node) and isinstance(node.ctx, ast.Load):
                 par = self.parent.get(id(node))
                 if isinstance(par, ast.Call) and par.func is node:
@@ -344,6 +345,36 @@ class Shape:
     @staticmethod
     def is_attr_base(n, root):
         return any(isinstance(p, ast.Attribute) and p.value is n for p in ast.walk(root))
+
+    def benign_builtin(self, call):
+        """hasattr(self, '<name>') / isinstance(self, X) / type(self) / id(self), and getattr(self, '<name>'[, default])
+        for a name that is a data attribute or a property (not a method, not the transport): no exchange can hide in
+        them and the connection object does not escape.  A method fetched by getattr is a method reference (Other)."""
+        f = call.func
+        if not isinstance(f, ast.Name) or call.keywords or not call.args or not self.is_self_name(call.args[0]):
+            return False
+        if any(self.is_self_name(a) for a in call.args[1:]):
+            return False
+        if any(isinstance(n, ast.Name) and n.id == f.id and isinstance(n.ctx, (ast.Store, ast.Del)) for n in ast.walk(self.fn)) \
+                or self.R.top_bindings(self.mod, f.id):
+            return False            # not the builtin
+        if f.id in ('isinstance', 'type', 'id') and len(call.args) <= 2:
+            return True
+        if f.id in ('hasattr', 'getattr') and len(call.args) in (2, 3) and isinstance(call.args[1], ast.Constant) \
+                and isinstance(call.args[1].value, str):
+            name = call.args[1].value
+            if f.id == 'hasattr':
+                return True
+            if name == 'interface':
+                return False
+            if name in self.R.methods:
+                m = self.R.methods[name][1]
+                if any(ast.unparse(d) == 'property' for d in m.decorator_list):
+                    return True
+                self.emit('Other %s' % q('method reference self.%s passed as a value' % name))
+                return True
+            return True
+        return False
 
     def passes_self(self, call):
         return any(self.is_self_name(a) for a in call.args) or any(self.is_self_name(k.value) for k in call.keywords)
@@ -623,7 +654,14 @@ class Shape:
         else:
             self.emit('Untranslated %s' % q('statement %s' % type(s).__name__))
 
+    PLAIN_DECORATORS = ('staticmethod', 'classmethod', 'property')
+
     def run(self):
+        for d in self.fn.decorator_list:
+            txt = ast.unparse(d)
+            if txt not in self.PLAIN_DECORATORS and not txt.endswith(('.setter', '.getter', '.deleter')):
+                # what runs is the decorator's result, not this body (it may retry, swallow a code, ...)
+                self.emit('Untranslated %s' % q('decorated with %s' % txt[:60]))
         if self.is_gen:
             self.emit('Other "generator function"')
         body = self.fn.body
